@@ -114,3 +114,11 @@ Theorem C04_source_complement_reverse_is_model : forall src a b,
   g_compl_fetch src a b true = neg_stream (compl_sweep (neg_stream (src a b true)) (negO b) (negO a)).
 Proof. intros. apply (g_compl_fetch_eq src a b true). Qed.
 Print Assumptions C04_source_complement_reverse_is_model.
+
+(* RecurringPattern._fetch_reverse as the code has it (tie C) *)
+From CG Require Import Model.Loop Proofs.GenEq2 Model.Recur.
+Theorem C04_source_recurring_reverse_is_model : forall r start e l,
+  fetch_reverse_opt r start e = Recur.Ok l ->
+  g_recur_fetch_reverse (reverse_fuel r start e) (r_freq r) (gen_fwd r) start (Some e) = RDone l.
+Proof. exact g_recur_fetch_reverse_composed_eq. Qed.
+Print Assumptions C04_source_recurring_reverse_is_model.
